@@ -6,7 +6,9 @@ Import ListNotations.
 
 Definition dec_regdef (s : sx) : regdef :=
   {| r_ident := sxS (sxnth 0 s); r_digits := sxnat (sxnth 1 s);
-     r_fields := map dec_field (sxL (sxnth 2 s)); r_delim := dec_delim (sxnth 3 s) |}.
+     r_fields := map dec_field (sxL (sxnth 2 s)); r_delim := dec_delim (sxnth 3 s);
+     (* optional fifth component: the identifier as a regular expression *)
+     r_pat := sxopt dec_re (sxnth 4 s) |}.
 
 Definition Selem (e : elem) : sx :=
   match e with
